@@ -938,6 +938,10 @@ def config_alphabet(tier, phase):
         add("sources", 2, 1, (2048,), mixings(2, (1.0, 0.5)), ("noise",))
         add("images", 2, 1, (2048,), mixings(2, (1.0, 0.0)), ("noise", "fir"))
         add("images", 2, 2, (2048,), leak_mixings(2, (0.5,)), ("noise",))
+        # three sources whose best assignment is a 3-cycle (its inverse is a different permutation - with two
+        # sources every permutation is its own inverse); no scale edges here, the permutation clauses only
+        cyc = [m for m in leak_mixings(3, (0.25,)) if all(m[i][i] != 1.0 for i in range(3))]
+        add("sources", 3, 1, (3072,), cyc[:1], ("noise",), {"scale": []})
     else:
         add("sources", 2, 1, (2048,), mixings(2, (1.0, 0.5, 0.1, 0.0)), ("noise", "fir"))
         add("sources", 2, 1, (2048,), mixings(2, (1.0, 0.5, 0.0)), ("none",))
@@ -992,7 +996,9 @@ def framewise_alphabet(tier, phase):
         for L in lengths:
             whs = [(W, W // 2), (W, W), (L, L)]
             if depth == "one":
-                whs = [(W, W // 2)]
+                # overlapping windows, and the single-window fall-back (window == length) where the framewise
+                # variant delegates to the plain one and must forward compute_permutation
+                whs = [(W, W // 2), (L, L)] if nsrc == 2 and nchan == 1 else [(W, W // 2)]
             for window, hop in whs:
                 for cp in ((False,) if (depth == "one" and nchan == 2) else (True, False)):
                     starts = bss.window_starts(L, window, hop)
